@@ -26,6 +26,8 @@ from .. import common as C
 from . import _an
 
 PROP = "C09"
+# obligations of the properties this one is downstream of are obligations of this check too (vk.runner.collect_obligations)
+UPSTREAM = ["C05"]
 GEN_REGIONS = ["Attrs"]
 THEOREMS = {
     "SpecKitV.Lemmas.CauchySchwarz": ["cross_cs_real", "cross_cs_complex", "cross_cs_means", "cross_cs_eq_one_segment",
